@@ -12,7 +12,13 @@ mappings the code asked for, and fills in scripted working counters.
 
 The oracle states the property on what terminals and devices saw; the same events (as byte patches
 on the frame sent last) go to the Lean model `Ebv.SlowCycle` and frames, device-visible values,
-wkc_errors and missed_counter must agree exactly."""
+wkc_errors and missed_counter must agree exactly.
+
+Histories: the same SyncGroup object (same terminal and device objects) may have run before (`restart`: 1-2 earlier runs through the
+real start(), while its terminals had other process-data sizes / FMMU use / sync-manager offsets, i.e. another frame layout with other
+counter positions and expectations), and other groups of another composition may have run before it in the process (`before`).
+Every run is judged by itself against the terminals as configured for it, and every run goes to the model together with the runs
+before it (`Ebv.SlowCycle.runAfter`; `restart_invariant`: only missed_counter carries over)."""
 import asyncio
 import logging
 import random
@@ -20,7 +26,7 @@ import struct
 from contextlib import asynccontextmanager
 
 ID = "C30"
-LEAN_MODULES = ["Ebv.Props.C30"]
+LEAN_MODULES = ["Ebv.Props.C30", "Ebv.Props.C30Restart"]
 MODEL_MODULES = ["Ebv.Model.SlowCycle", "Ebv.Model.Bytes"]
 DRIVER = "Drivers/C30.lean"
 THEOREMS = [
@@ -28,6 +34,8 @@ THEOREMS = [
     "Ebv.C30.outputs_next_frame", "Ebv.C30.outputs_next_frame_run", "Ebv.C30.timeout_resends",
     "Ebv.C30.wkc_cleared_step", "Ebv.C30.wkc_cleared", "Ebv.C30.cleared_bytes", "Ebv.C30.first_frames",
     "Ebv.C30.error_iff_mismatch_step", "Ebv.C30.error_iff_mismatch", "Ebv.C30.wkc_full_width",
+    "Ebv.C30.run_after_restart", "Ebv.C30.restart_invariant", "Ebv.C30.restart_error_iff_mismatch", "Ebv.C30.restart_inputs_visible",
+    "Ebv.C30.restart_sent", "Ebv.C30.restart_witness",
 ]
 TRUSTED = ["hand-written model Ebv.SlowCycle of SyncGroup.update_devices / SyncGroupBase.run / PacketVar.get,set (Python path), "
            "tied by exact correspondence of frames sent, device-visible values, wkc_errors, missed_counter",
@@ -40,12 +48,16 @@ ASSUMPTIONS = ["responses have the length of the frame sent and keep the packet 
                "(no late response is delivered)",
                "variables and counters lie inside the frame, inputs overlap no counter and no output, outputs overlap no "
                "counter and are pairwise independent (established by allocate: C18; checked per case by the driver)",
+               "a group is started again only after its task ended (start() asserts it); between two runs only the terminals' "
+               "configuration changes (the group keeps its devices and terminals); devices are stateless between runs",
                "the first frame carries the expected counts in its counter fields (Packet.assemble gets wkc=counter), so 'from the "
                "second cycle on' = every response is compared alike, wkc_errors starts at 1"]
 RULE = ("case = 1..4 terminals (station address, pdo in/out sizes 0..9, use_fmmu on/off), 1..3 devices with 0..3 input and "
         "0..3 output variables (B H I b h i and bits, outputs non-overlapping), scripted affine device functions, 0..7 bus events "
         "(timeout | response with random inputs and per-datagram counter kinds: conformant, exact, 0, +1, expected+k*256, "
-        "random >=256, random <256, 0xffff); non-trivial = at least one response and one variable")
+        "random >=256, random <256, 0xffff); ~30% of the cases: the group object ran 1-2 times before (1-4 events each) under other "
+        "sizes / FMMU use / offsets of 1..all of its terminals; ~12%: 1-2 other groups (cases of their own) ran before in the process; "
+        "non-trivial = at least one response and one variable")
 
 FMT = {"B": (1, False), "H": (2, False), "I": (4, False), "b": (1, True), "h": (2, True), "i": (4, True)}
 KINDS = ["conf", "conf", "conf", "ok", "zero", "inc", "hi", "hi", "big", "lo", "ffff"]
@@ -120,12 +132,23 @@ def bus_process(frame, sims, kinds, rnd):
 
 # ---------------------------------------------------------------- the real code under a scripted environment
 
+def runs_of(case):
+    """the runs of the case's group object, oldest first: (terminal specs of that time, bus events); `restart` lists the
+    earlier ones as {"conf": per terminal what differed then (process-data sizes, FMMU use, offsets), "events": [...]}"""
+    out = [([{**t, **o} for t, o in zip(case["terms"], r["conf"])], r["events"]) for r in case.get("restart") or []]
+    return out + [(case["terms"], case["events"])]
+
+
 def run_impl(case):
+    """obs of the group's latest run; obs["earlier"] = obs of its earlier runs (same SyncGroup, terminal and device objects,
+    started again through the real start() after the terminals were configured anew); obs["before"] = obs of other groups
+    (`before`: complete cases of their own) that ran earlier in the same process"""
+    before = [run_impl(sub) for sub in case.get("before") or []]
     import ebpfcat.ebpfcat as EB
     from ebpfcat.ebpfcat import SyncGroup, EBPFTerminal, Device, TerminalVar, PacketDesc, SyncManager
     from ebpfcat.ethercat import EtherCat, MachineState
 
-    sims = [SimTerm(t) for t in case["terms"]]
+    sims = []
     life = []
     frames = []
     maphist = {}
@@ -136,7 +159,7 @@ def run_impl(case):
             frames.append(bytes(data))
             life.append("frame")
 
-    def make_term(k, spec, ec):
+    def make_term(k, ec):
         attrs = {}
         for d, dev in enumerate(case["devs"]):
             for tag in ("ins", "outs"):
@@ -144,7 +167,6 @@ def run_impl(case):
                     if tk == k:
                         attrs[f"d{d}{tag[0]}{j}"] = PacketDesc(SyncManager.IN if tag == "ins" else SyncManager.OUT, pos,
                                                                fmt if isinstance(fmt, str) else int(fmt))
-        sim = sims[k]
 
         async def to_operational(self, target=MachineState.OPERATIONAL):
             life.append(f"toop{k}:{target.name}")
@@ -154,6 +176,7 @@ def run_impl(case):
 
         @asynccontextmanager
         async def map_fmmu(self, logical, write):
+            sim = sims[k]
             sim.maps[bool(write)] = logical
             maphist.setdefault(k, {})[bool(write)] = logical
             life.append(f"map{k}:{int(bool(write))}")
@@ -164,11 +187,16 @@ def run_impl(case):
                 life.append(f"unmap{k}:{int(bool(write))}")
         attrs.update(to_operational=to_operational, set_state=set_state, map_fmmu=map_fmmu)
         t = type(f"Term{k}", (EBPFTerminal,), attrs)(ec)
-        t.position, t.name = spec["pos"], f"T{k}"
-        t.pdo_in_sz, t.pdo_out_sz = spec["in_sz"], spec["out_sz"]
-        t.pdo_in_off, t.pdo_out_off = spec["in_off"], spec["out_off"]
-        t.use_fmmu = bool(spec["fmmu"])
+        t.name = f"T{k}"
         return t
+
+    def configure(terms, specs):
+        """what a terminal's PDO configuration decides"""
+        for t, spec in zip(terms, specs):
+            t.position = spec["pos"]
+            t.pdo_in_sz, t.pdo_out_sz = spec["in_sz"], spec["out_sz"]
+            t.pdo_in_off, t.pdo_out_off = spec["in_off"], spec["out_off"]
+            t.use_fmmu = bool(spec["fmmu"])
 
     def make_dev(d, dev, terms):
         nin, nout = len(dev["ins"]), len(dev["outs"])
@@ -207,7 +235,7 @@ def run_impl(case):
             setattr(obj, f"o{j}", getattr(terms[tk], f"d{d}o{j}"))
         return obj, log
 
-    events = list(case["events"])
+    events = []
     cycles = []      # per response: {"inputs": {k: bytes}, "info": [(processed, wkc)], "frame_no": index of the frame answered}
     state = {"k": 0}
     real_sleep = asyncio.sleep
@@ -245,38 +273,55 @@ def run_impl(case):
         asyncio.set_event_loop(loop)
         ec = EtherCat("sim")
         ec.transport = Transport()
-        terms = [make_term(k, spec, ec) for k, spec in enumerate(case["terms"])]
+        runs = runs_of(case)
+        terms = [make_term(k, ec) for k in range(len(case["terms"]))]
+        configure(terms, runs[0][0])
         devs = [make_dev(d, dev, terms) for d, dev in enumerate(case["devs"])]
         sg = SyncGroup(ec, [d for d, _ in devs])
-        if not events:
-            sg.running = False
+        results = []
+        for specs, evs in runs:
+            configure(terms, specs)
+            sims[:] = [SimTerm(t) for t in specs]
+            events[:] = evs
+            del life[:], frames[:], cycles[:]
+            maphist.clear()
+            state["k"] = 0
+            for _, log in devs:
+                for v in log.values():
+                    del v[:]
+            sg.running = bool(evs)
 
-        async def main():
-            await sg.start()
-        loop.run_until_complete(main())
-        # after every frame: what reached the terminals (bus semantics on the wire image)
-        outputs = []
-        probe = [SimTerm(t) for t in case["terms"]]
-        for fr in frames:
-            for k, p in enumerate(probe):
-                p.maps, p.outputs = maphist.get(k, {}), None
-            bus_process(fr, probe, ["ok"], random.Random(0))
-            outputs.append({k: p.outputs for k, p in enumerate(probe)})
-        layout = {
-            "asm": frames[0].hex(),
-            "counters": [[int(p), int(c)] for p, c in sg.packet.counters.items()],
-            "devs": [],
-        }
-        for (obj, _), dev in zip(devs, case["devs"]):
-            ent = {"ins": [], "outs": [], "params": [list(p) for p in dev["params"]]}
-            for tag, pre in (("ins", "i"), ("outs", "o")):
-                for j, (_, _, fmt) in enumerate(dev[tag]):
-                    start = obj.__dict__[f"{pre}{j}"]._start(obj)
-                    ent[tag].append([0, start, FMT[fmt][0], int(FMT[fmt][1])] if isinstance(fmt, str) else [1, start, int(fmt), 0])
-            layout["devs"].append(ent)
-        return {"frames": frames, "cycles": cycles, "life": life, "logs": [l for _, l in devs], "errors": sg.wkc_errors,
-                "missed": sg.missed_counter, "layout": layout, "outputs": outputs,
-                "group": [(k, bool(sg.terminals[t])) for k, t in enumerate(terms) if t in sg.terminals]}
+            async def main():
+                await sg.start()
+            loop.run_until_complete(main())
+            # after every frame: what reached the terminals (bus semantics on the wire image)
+            outputs = []
+            probe = [SimTerm(t) for t in specs]
+            for fr in frames:
+                for k, p in enumerate(probe):
+                    p.maps, p.outputs = maphist.get(k, {}), None
+                bus_process(fr, probe, ["ok"], random.Random(0))
+                outputs.append({k: p.outputs for k, p in enumerate(probe)})
+            layout = {
+                "asm": frames[0].hex(),
+                "counters": [[int(p), int(c)] for p, c in sg.packet.counters.items()],
+                "devs": [],
+            }
+            for (obj, _), dev in zip(devs, case["devs"]):
+                ent = {"ins": [], "outs": [], "params": [list(p) for p in dev["params"]]}
+                for tag, pre in (("ins", "i"), ("outs", "o")):
+                    for j, (_, _, fmt) in enumerate(dev[tag]):
+                        start = obj.__dict__[f"{pre}{j}"]._start(obj)
+                        ent[tag].append([0, start, FMT[fmt][0], int(FMT[fmt][1])] if isinstance(fmt, str) else [1, start, int(fmt), 0])
+                layout["devs"].append(ent)
+            results.append({"frames": list(frames), "cycles": list(cycles), "life": list(life),
+                            "logs": [{k: [list(x) if isinstance(x, list) else x for x in v] for k, v in l.items()} for _, l in devs],
+                            "errors": sg.wkc_errors, "missed": sg.missed_counter, "layout": layout, "outputs": outputs,
+                            "specs": specs, "events": list(evs),
+                            "group": [(k, bool(sg.terminals[t])) for k, t in enumerate(terms) if t in sg.terminals]})
+        obs = results[-1]
+        obs["earlier"], obs["before"] = results[:-1], before
+        return obs
     finally:
         EB.sleep, EB.wait_for, EB.monotonic, SyncGroup.packet_index = saved
         logging.disable(logging.NOTSET)
@@ -290,12 +335,12 @@ def show(obs):
     return " ".join(f.hex() for f in obs["frames"]) + " | " + seen + f" | {obs['errors']} | {obs['missed']}"
 
 
-def driver_line(case, obs):
-    """the same events as byte patches on the frame sent last"""
+def run_line(obs):
+    """one run: the layout the real allocate() computed for it and its events as byte patches on the frame sent last"""
     line = dict(obs["layout"])
     evs = []
     c = 0
-    for ev in case["events"]:
+    for ev in obs["events"]:
         if ev[0] == "t":
             evs.append(["t"])
             continue
@@ -317,6 +362,18 @@ def driver_line(case, obs):
     return line
 
 
+def driver_lines(obs):
+    """per run of the group object (oldest first): (what the implementation showed, the model's input: that run with all the
+    runs before it as `earlier`)"""
+    runs = obs["earlier"] + [obs]
+    lines = [run_line(o) for o in runs]
+    return [(show(o), {**lines[k], "earlier": lines[:k]}) for k, o in enumerate(runs)]
+
+
+def driver_line(case, obs):
+    return driver_lines(obs)[-1][1]
+
+
 def decode(raw, fmt):
     if isinstance(fmt, str):
         return int.from_bytes(raw, "little", signed=FMT[fmt][1])
@@ -328,21 +385,32 @@ def size_of(fmt):
 
 
 def oracle(ctx, case, obs):
+    """every run of the case — the group's earlier runs, its latest one, and the groups that ran before it in the process —
+    is judged by itself, against the terminals as they were configured for that run"""
+    for sub, o in zip(case.get("before") or [], obs["before"]):
+        oracle(ctx, sub, o)
+    runs = obs["earlier"] + [obs]
+    for k, o in enumerate(runs):
+        oracle_run(ctx, case, o, "" if len(runs) == 1 else f"run {k + 1} of {len(runs)} of the group: ")
+
+
+def oracle_run(ctx, case, obs, label):
     """the property text, on what the simulated terminals delivered / received and what the devices saw"""
-    out = show(obs)[:600]
+    out = label + show(obs)[:600]
     frames, cycles, logs = obs["frames"], obs["cycles"], obs["logs"]
-    nresp = sum(1 for e in case["events"] if e[0] == "r")
-    ctx.require(len(frames) == 1 + len(case["events"]) and len(cycles) == nresp, "one frame per bus event expected", case, out, "frames")
+    events = obs["events"]
+    nresp = sum(1 for e in events if e[0] == "r")
+    ctx.require(len(frames) == 1 + len(events) and len(cycles) == nresp, label + "one frame per bus event expected", case, out, "frames")
     for c, cyc in enumerate(cycles):
         # 1. inputs: every device read, at each input variable, the bytes its terminal delivered in this response
         for d, dev in enumerate(case["devs"]):
-            ctx.require(len(logs[d]["seen"]) > c, "device update did not run in this cycle", case, out, "inputs")
+            ctx.require(len(logs[d]["seen"]) > c, label + "device update did not run in this cycle", case, out, "inputs")
             if len(logs[d]["seen"]) <= c:
                 continue
             for j, (tk, pos, fmt) in enumerate(dev["ins"]):
                 want = decode(cyc["inputs"][tk][pos:pos + size_of(fmt)], fmt)
                 ctx.require(logs[d]["seen"][c][j] == want,
-                            f"cycle {c + 1}: device {d} input {j} saw {logs[d]['seen'][c][j]}, terminal delivered {want}",
+                            f"{label}cycle {c + 1}: device {d} input {j} saw {logs[d]['seen'][c][j]}, terminal delivered {want}",
                             case, out, "inputs")
         # 2. outputs: the next frame (and every re-send of it) delivers what the devices wrote to the terminals
         last = cycles[c + 1]["frame_no"] if c + 1 < len(cycles) else len(frames) - 1
@@ -353,24 +421,24 @@ def oracle(ctx, case, obs):
                 for j, (tk, pos, fmt) in enumerate(dev["outs"]):
                     got = obs["outputs"][nxt][tk]
                     ok = got is not None and decode(got[pos:pos + size_of(fmt)], fmt) == logs[d]["written"][c][j]
-                    ctx.require(ok, f"cycle {c + 1}: device {d} output {j} = {logs[d]['written'][c][j]} not delivered by frame {nxt + 1}",
+                    ctx.require(ok, f"{label}cycle {c + 1}: device {d} output {j} = {logs[d]['written'][c][j]} not delivered by frame {nxt + 1}",
                                 case, out, "outputs")
         # 4. errors: from the second cycle on the increase of wkc_errors = datagrams whose counter != terminals that process it
         if c >= 1 and logs and len(logs[0]["errs"]) > c:
             inc = logs[0]["errs"][c] - logs[0]["errs"][c - 1]
             want = sum(1 for processed, wkc in cyc["info"][1:] if wkc != processed)
-            ctx.require(inc == want, f"cycle {c + 1}: wkc_errors grew by {inc}, {want} datagram(s) had a wrong counter "
+            ctx.require(inc == want, f"{label}cycle {c + 1}: wkc_errors grew by {inc}, {want} datagram(s) had a wrong counter "
                         f"{[w for _, w in cyc['info'][1:]]} vs {[p for p, _ in cyc['info'][1:]]}", case, out, "wkc-errors")
     # 3. every frame sent after a response has been processed has every working counter zero (both bytes)
     if cycles:
         for n in range(cycles[0]["frame_no"] + 1, len(frames)):
             bad = [wp for _, _, _, _, wp in parse_frame(frames[n]) if frames[n][wp:wp + 2] != b"\0\0"]
-            ctx.require(not bad, f"frame {n + 1} sent with non-zero working counter at {bad}", case, out, "wkc-cleared")
+            ctx.require(not bad, f"{label}frame {n + 1} sent with non-zero working counter at {bad}", case, out, "wkc-cleared")
 
 
 # ---------------------------------------------------------------- generator
 
-def gen(rng):
+def gen(rng, history=True):
     nt = rng.randint(1, 4)
     stations = rng.sample(range(1001, 1040), nt)
     terms = []
@@ -435,15 +503,50 @@ def gen(rng):
         else:
             devs[0]["outs"].append([k, 0, "B"])
             devs[0]["params"].append([1, 1, 1])
+    case = {"terms": terms, "devs": devs, "events": gen_events(rng)}
+    if history and rng.random() < 0.3:
+        case["restart"] = gen_restart(rng, case)
+    if history and rng.random() < 0.12:
+        case["before"] = [gen(rng, history=False) for _ in range(rng.choice([1, 1, 2]))]
+    return case
+
+
+def gen_events(rng, lengths=(0, 1, 2, 3, 3, 4, 5, 7)):
     events = []
-    for n in range(rng.choice([0, 1, 2, 3, 3, 4, 5, 7])):
+    for n in range(rng.choice(lengths)):
         if rng.random() < 0.2:
             events.append(["t"])
         else:
             healthy = rng.random() < 0.35
             events.append(["r", {"seed": rng.randrange(1 << 30),
                                  "wkc": ["conf"] if healthy else [rng.choice(KINDS) for _ in range(4)]}])
-    return {"terms": terms, "devs": devs, "events": events}
+    return events
+
+
+def gen_restart(rng, case):
+    """1-2 earlier runs of the same group object: the terminals had other process-data sizes (never below what the variables
+    need), other FMMU use or other sync-manager offsets then — another frame layout, other counter positions and expectations"""
+    need = {}
+    for dev in case["devs"]:
+        for tag, key in (("ins", "in_sz"), ("outs", "out_sz")):
+            for tk, pos, fmt in dev[tag]:
+                need[tk, key] = max(need.get((tk, key), 0), pos + size_of(fmt))
+    out = []
+    for _ in range(rng.choice([1, 1, 2])):
+        conf = [{} for _ in case["terms"]]
+        for k in rng.sample(range(len(conf)), rng.randrange(1, len(conf) + 1)):
+            t = case["terms"][k]
+            for key in ("in_sz", "out_sz"):
+                if rng.random() < 0.6:
+                    conf[k][key] = max(need.get((k, key), 0), t[key] + rng.choice([-4, -2, -1, 1, 1, 2, 3, 6]))
+            if rng.random() < 0.4:
+                conf[k]["fmmu"] = not t["fmmu"]
+            if rng.random() < 0.2:
+                conf[k]["out_off"] = 0x1000 + 0x20 * rng.randrange(8)
+            if not (conf[k].get("in_sz", t["in_sz"]) or conf[k].get("out_sz", t["out_sz"])):
+                conf[k]["in_sz"] = 2
+        out.append({"conf": conf, "events": gen_events(rng, (1, 2, 3, 3, 4))})
+    return out
 
 
 def run(ctx):
@@ -457,7 +560,7 @@ def run(ctx):
                       "params": [[1, 1, 1], [0, 1, 0], [1, 0, 1]]}],
             "events": [["r", {"seed": 1, "wkc": ["conf"]}], ["t"], ["r", {"seed": 2, "wkc": ["conf"]}],
                        ["r", {"seed": 3, "wkc": [kind]}], ["r", {"seed": 4, "wkc": ["conf"]}]]})
-    impl, lines = [], []
+    impl, lines, owner = [], [], []
     for c in cases:
         obs = run_impl(c)
         nvar = sum(len(d["ins"]) + len(d["outs"]) for d in c["devs"])
@@ -466,12 +569,20 @@ def run(ctx):
                  kind=f"resp={min(len(obs['cycles']), 4)}{'+' if len(obs['cycles']) > 4 else ''},timeouts={min(obs['missed'], 2)}")
         for k in kinds:
             ctx.stats["wkc:" + k] += 1
+        if obs["earlier"]:
+            moved = any(o["layout"]["counters"] != obs["layout"]["counters"] for o in obs["earlier"])
+            ctx.stats["restart:counters-moved" if moved else "restart:same-counters"] += 1
+        if obs["before"]:
+            ctx.stats["other-groups-before"] += 1
         oracle(ctx, c, obs)
-        impl.append(show(obs))
-        lines.append(driver_line(c, obs))
+        for o in obs["before"] + [obs]:              # every run of every group of the case goes to the model
+            for i, line in driver_lines(o):
+                impl.append(i)
+                lines.append(line)
+                owner.append(c)
     model = ctx.drive(DRIVER, lines, "slow cycle")
     if model is not None:
-        for c, i, m in zip(cases, impl, model):
+        for c, i, m in zip(owner, impl, model):
             mm, _, lay = m.rpartition(" | ")
             ctx.require(lay == "layout=1", "layout hypothesis of the theorems not met by the real allocate()", c, lay, "layout")
             ctx.agree("frames sent | device-visible values | wkc_errors | missed_counter", c, i, mm)
@@ -489,7 +600,10 @@ LEVEL_TEXT = ("Lean 4 proof over a hand-written model of update_devices and the 
               "response at its inputs; what a device wrote reads back in the frame sent next and in every re-send; every frame "
               "sent after a processed response has all counters zero in both bytes; wkc_errors = 1 + number of datagrams whose "
               "16-bit counter != expected over all responses (>= 256 and high-byte-only differences count); missed_counter = "
-              "timeouts.  Tied to /repo by exact correspondence of the real SyncGroup (real allocate, TerminalVar/PacketDesc/"
+              "timeouts.  Restart (Ebv.Props.C30Restart): after any history of earlier runs of the group object under any layouts the latest run "
+              "is the run of a fresh group on the layout of now — frames, values seen, process image, wkc_errors — and missed_counter is the "
+              "sum of all timeouts (run_after_restart, restart_invariant; restart_error_iff_mismatch, restart_inputs_visible, restart_sent; "
+              "restart_witness = what a counter table kept from the first start counts and leaves uncleared).  Tied to /repo by exact correspondence of the real SyncGroup (real allocate, TerminalVar/PacketDesc/"
               "PacketVar Python path, roundtrip_packet/datagram_received) on a semantic simulated bus.")
 LEVEL_NOTE = ("trusted: Lean kernel + propext/Classical.choice/Quot.sound; hand transcription Ebv.SlowCycle validated (not verified) by "
               "differential runs; layout hypotheses are C18's business and are only re-checked per generated case; wait_for/sleep/"
